@@ -290,7 +290,7 @@ func ruleDocExt(c *engine.Context) *report.Rule {
 
 // ruleSetUserOnly: the library never calls the closures it hands out as Accessor.Set/Get.
 func ruleSetUserOnly(c *engine.Context) *report.Rule {
-	r := report.NewRule("R-SET-USERONLY", "closures stored in Accessor fields are never called by the library itself", 2)
+	r := report.NewRule("R-SET-USERONLY", "closures stored in Accessor fields are never called by the library itself", 1)
 	a := regionsOf(c)
 	p := c.P
 	for _, fn := range p.Funcs {
